@@ -40,7 +40,7 @@ ASSUMPTIONS = [
 ]
 BOUNDS = {
     "quick": {"coarse": "all interleavings (2 threads; lru harness bound 3), bound 2 (3 threads)", "fine_preemption_bound": 1, "threads": "2-3"},
-    "thorough": {"coarse": "all interleavings (2 threads; lru harness bound 5), bound 3 (3 threads)", "fine_preemption_bound": 2, "threads": "2-3"},
+    "thorough": {"coarse": "all interleavings (2 threads; lru harness bound 5), bound 3 (3 threads)", "fine_preemption_bound": "2 (lookup harnesses), 1 (render / compile harnesses)", "threads": "2-3"},
 }
 READY = True
 PIN_CPUS = True  # baton hand-offs between the threads of one worker stay on one core
@@ -584,7 +584,7 @@ def specs(tier):
         if not q:
             out.append((h, 3, True, 1))
     out.append(("render", 2, False, None))
-    out.append(("render", 2, True, 1 if q else 2))
+    out.append(("render", 2, True, 1))  # ~830 line-level points: bound 2 would be ~10^5 executions of 50 ms each
     out.append(("compile", 2, False, 1 if q else 2))
     if not q:
         out.append(("compile", 2, True, 1))
